@@ -366,3 +366,4 @@ class C19(Base):
 
 
 P = C19()
+P.RULE = P.RULE + ' Schemes with non-ASCII literal text; locale lists that repeat a locale (adjacent or not).'
